@@ -108,3 +108,113 @@ pub fn invoke(role: BuiltinValueRole, args: Vec<SemValue>, stdin: &[u8], argv: &
     };
     PrimRun { out, stdout: output, stack_left }
 }
+
+/// A long-lived real `Runtime` on which a sequence of primitives is stepped (the host handle
+/// table persists between steps).
+pub struct PrimSession {
+    rt: Runtime<'static>,
+    out: Rc<std::cell::RefCell<Vec<u8>>>,
+}
+
+struct SharedBuf(Rc<std::cell::RefCell<Vec<u8>>>);
+impl std::io::Write for SharedBuf {
+    fn write(&mut self, buf: &[u8]) -> std::io::Result<usize> {
+        self.0.borrow_mut().extend_from_slice(buf);
+        Ok(buf.len())
+    }
+    fn flush(&mut self) -> std::io::Result<()> {
+        Ok(())
+    }
+}
+
+impl PrimSession {
+    pub fn new(stdin: &[u8], argv: Vec<String>) -> Self {
+        let out = Rc::new(std::cell::RefCell::new(Vec::new()));
+        let input: &'static mut std::io::Cursor<Vec<u8>> =
+            Box::leak(Box::new(std::io::Cursor::new(stdin.to_vec())));
+        let output: &'static mut SharedBuf = Box::leak(Box::new(SharedBuf(out.clone())));
+        let argv: &'static [String] = Box::leak(argv.into_boxed_slice());
+        let program = DynamicsProgram {
+            defs: ArenaSparse::new(),
+            root: Rc::new(Computation::Hole(Hole)),
+        };
+        PrimSession { rt: Runtime::new(input, output, argv, program), out }
+    }
+
+    pub fn output(&self) -> Vec<u8> {
+        self.out.borrow().clone()
+    }
+
+    /// Step one primitive. Returns the raw resulting computation as well, for shapes `PrimOut`
+    /// does not decode.
+    pub fn step(&mut self, role: BuiltinValueRole, args: Vec<SemValue>) -> (PrimOut, Option<Computation>) {
+        let thunks: Vec<(usize, *const Computation)> =
+            args.iter().enumerate().filter_map(|(i, a)| thunk_ptr(a).map(|p| (i, p))).collect();
+        let arity = role.arity() as u64;
+        self.rt.stack.clear();
+        for a in args.into_iter().rev() {
+            self.rt.stack.push_back(SemCompu::App(a));
+        }
+        let prim = Computation::Prim(Prim { arity, role });
+        let rt = &mut self.rt;
+        let res = catch(|| prim.step(rt));
+        match res {
+            | Err((msg, loc)) => (PrimOut::Panic { msg, loc }, None),
+            | Ok(Step::Done(zydeco_dynamics::ProgKont::ExitCode(c))) => (PrimOut::Exit(c), None),
+            | Ok(Step::Done(other)) => (PrimOut::Other(format!("{other:?}")), None),
+            | Ok(Step::Step(c)) => {
+                let out = match &c {
+                    | Computation::Ret(zydeco_syntax::Return(v)) => match sem_of(v) {
+                        | Some(s) => PrimOut::Ret(s),
+                        | None => PrimOut::Other("ret-nonsem".into()),
+                    },
+                    | _ => {
+                        let mut call_args = Vec::new();
+                        match spine(&c, &mut call_args) {
+                            | Some(head) => {
+                                let p = thunk_ptr(&head);
+                                match thunks.iter().find(|(_, q)| Some(*q) == p) {
+                                    | Some((i, _)) => PrimOut::Call { index: *i, args: call_args },
+                                    | None => PrimOut::Other("call-unknown-thunk".into()),
+                                }
+                            }
+                            | None => PrimOut::Other("complex".into()),
+                        }
+                    }
+                };
+                (out, Some(c))
+            }
+        }
+    }
+}
+
+/// Decode `arg_fold`'s result: `! item a0 { ! item a1 { … ! empty } }`.
+pub fn decode_fold(c: &Computation, empty: &SemValue, item: &SemValue) -> Option<Vec<String>> {
+    let pe = thunk_ptr(empty)?;
+    let pi = thunk_ptr(item)?;
+    let mut out = Vec::new();
+    let mut cur: Computation = c.clone();
+    loop {
+        match &cur {
+            | Computation::Force(zydeco_syntax::Force(v)) => {
+                let head = sem_of(v)?;
+                return (thunk_ptr(&head)? == pe).then_some(out);
+            }
+            | Computation::VApp(zydeco_syntax::App(f, tail)) => {
+                // f = App(Force(item), Lit(arg)); tail = Thunk(rest)
+                let Computation::VApp(zydeco_syntax::App(head, arg)) = f.as_ref() else { return None };
+                let Computation::Force(zydeco_syntax::Force(h)) = head.as_ref() else { return None };
+                if thunk_ptr(&sem_of(h)?)? != pi {
+                    return None;
+                }
+                match sem_of(arg)? {
+                    | SemValue::Literal(zydeco_syntax::Literal::String(s)) => out.push(s.as_str().to_string()),
+                    | _ => return None,
+                }
+                let Value::Thunk(zydeco_syntax::Thunk(rest)) = tail.as_ref() else { return None };
+                cur = rest.as_ref().clone();
+            }
+            | _ => return None,
+        }
+    }
+}
